@@ -102,7 +102,7 @@ impl<'n> TryFromNode<'n> for Field {
 
             let xml_name = ref_node.xml_name().ok_or(WriterError::InvalidReference)?;
             let rust_type = RustFieldType::Other(OtherRustType {
-                name: to_pascal_case(xml_name),
+                name: as_type_name(xml_name),
                 module,
             });
 
@@ -280,7 +280,7 @@ pub fn as_rust_type(node_type: &str, doc: &RustDocument) -> RustFieldType {
         "short" => RustFieldType::I16,
         "boolean" => RustFieldType::Bool,
         v => RustFieldType::Other(OtherRustType {
-            name: to_pascal_case(v),
+            name: as_type_name(v),
             module: namespace.and_then(|ns| {
                 doc.find_module_name_from_namespace_reference(ns)
                     .map(ToString::to_string)
@@ -294,21 +294,32 @@ pub fn as_field_name(xml_name: &str) -> String {
     rename_keywords(&field_name).to_string()
 }
 
+/// The PascalCase type name for an XML name; `Self` is the only keyword of that form and cannot
+/// be written as a raw identifier.
+pub fn as_type_name(xml_name: &str) -> String {
+    let type_name = to_pascal_case(xml_name);
+    if type_name == "Self" { "Self_".to_string() } else { type_name }
+}
+
 /// renamed the Rust keyword and quote the field name
 pub fn rename_keywords(field_name: &str) -> &str {
     match field_name {
-        "type" => "r#type",
+        // these can not be raw identifiers
+        "self" => "self_",
+        "super" => "super_",
+        "crate" => "crate_",
+        // strict keywords
         "as" => "r#as",
-        "where" => "r#where",
+        "async" => "r#async",
+        "await" => "r#await",
         "break" => "r#break",
-        "override" => "r#override",
+        "const" => "r#const",
         "continue" => "r#continue",
-        "crate" => "r#crate",
+        "dyn" => "r#dyn",
         "else" => "r#else",
         "enum" => "r#enum",
         "extern" => "r#extern",
         "false" => "r#false",
-        "true" => "r#true",
         "fn" => "r#fn",
         "for" => "r#for",
         "if" => "r#if",
@@ -323,7 +334,30 @@ pub fn rename_keywords(field_name: &str) -> &str {
         "pub" => "r#pub",
         "ref" => "r#ref",
         "return" => "r#return",
-        "self" => "r#self",
+        "static" => "r#static",
+        "struct" => "r#struct",
+        "trait" => "r#trait",
+        "true" => "r#true",
+        "type" => "r#type",
+        "unsafe" => "r#unsafe",
+        "use" => "r#use",
+        "where" => "r#where",
+        "while" => "r#while",
+        // reserved keywords
+        "abstract" => "r#abstract",
+        "become" => "r#become",
+        "box" => "r#box",
+        "do" => "r#do",
+        "final" => "r#final",
+        "gen" => "r#gen",
+        "macro" => "r#macro",
+        "override" => "r#override",
+        "priv" => "r#priv",
+        "try" => "r#try",
+        "typeof" => "r#typeof",
+        "unsized" => "r#unsized",
+        "virtual" => "r#virtual",
+        "yield" => "r#yield",
         _ => field_name,
     }
 }
